@@ -119,9 +119,51 @@ func (f *Frame) bindByName(st *State, params []*types.Var, pos token.Pos, specia
 		if want := f.sortOf(p.Type()); want != v.Sort {
 			vc.fail(pos, "spec parameter %q has sort %s but the variable has sort %s", p.Name(), want, v.Sort)
 		}
+		if !mirrorIdentical(p.Type(), obj.Type()) {
+			vc.fail(pos, "spec parameter %q has type %s but the variable has type %s", p.Name(), p.Type(), obj.Type())
+		}
 		out = append(out, v)
 	}
 	return out
+}
+
+// mirrorIdentical: the spec parameter's type is the variable's type - where the variable's type mentions a type
+// declared inside the function (which a contract file cannot name), a package-level type of the same name and the
+// same structure stands for it (field heaps are keyed by package, type name and field name, so both denote the
+// same fields).
+func mirrorIdentical(a, b types.Type) bool {
+	a, b = types.Unalias(a), types.Unalias(b)
+	if types.Identical(a, b) {
+		return true
+	}
+	switch x := a.(type) {
+	case *types.Pointer:
+		y, ok := b.(*types.Pointer)
+		return ok && mirrorIdentical(x.Elem(), y.Elem())
+	case *types.Slice:
+		y, ok := b.(*types.Slice)
+		return ok && mirrorIdentical(x.Elem(), y.Elem())
+	case *types.Map:
+		y, ok := b.(*types.Map)
+		return ok && mirrorIdentical(x.Key(), y.Key()) && mirrorIdentical(x.Elem(), y.Elem())
+	case *types.Named:
+		y, ok := b.(*types.Named)
+		if !ok || x.Obj().Name() != y.Obj().Name() || x.Obj().Pkg() != y.Obj().Pkg() {
+			return false
+		}
+		sx, ok1 := x.Underlying().(*types.Struct)
+		sy, ok2 := y.Underlying().(*types.Struct)
+		if !ok1 || !ok2 || sx.NumFields() != sy.NumFields() {
+			return false
+		}
+		for i := 0; i < sx.NumFields(); i++ {
+			if sx.Field(i).Name() != sy.Field(i).Name() || !mirrorIdentical(sx.Field(i).Type(), sy.Field(i).Type()) {
+				return false
+			}
+		}
+		return true
+	}
+	return false
 }
 
 func (f *Frame) stmt(st *State, s ast.Stmt, label string) []Outcome {
@@ -386,6 +428,18 @@ func (f *Frame) assign(st *State, s *ast.AssignStmt) {
 			f.assignOne(st, s, lh, vals[i], nil)
 		}
 		return
+	}
+	// ghost map reset: g = map[K]V{} (ghost maps are total arrays: every key maps to the zero value again)
+	if len(s.Lhs) == 1 && len(s.Rhs) == 1 && s.Tok == token.ASSIGN {
+		if gv, ok := f.ghostMapVar(s.Lhs[0]); ok {
+			cl, isLit := ast.Unparen(s.Rhs[0]).(*ast.CompositeLit)
+			if !isLit || len(cl.Elts) != 0 {
+				vc.fail(s.Pos(), "a ghost map can only be reset to an empty literal")
+			}
+			ks, vs := vc.mapSorts(gv.Type().Underlying().(*types.Map))
+			vc.heapSet(st, ghostMapKey(gv), vc.define("gm", ConstArray(ks, vs, vc.zeroSort(vs))))
+			return
+		}
 	}
 	// parallel assignment: evaluate all right-hand sides first
 	vals := make([]Term, len(s.Rhs))
